@@ -729,14 +729,23 @@ fn ops(m: &Model, ctx: &mut Ctx) {
             let key = format!("serial:{}:{}", f.name, what);
             ctx.oblige("C15.ops", &key, true);
             let mut env = Env::new();
-            for p in &params {
-                env.insert(p.clone(), Val::ctor("IA5String"));
+            for a in f.sig.inputs.iter() {
+                if let syn::FnArg::Typed(t) = a {
+                    // the string type, as it is or optional
+                    env.insert(tok(&t.pat), if tok(&t.ty).starts_with("Option<") { Val::some(Val::ctor("IA5String")) } else { Val::ctor("IA5String") });
+                }
             }
             env.insert(lp.clone(), Val::List(list.iter().map(|s| Val::Str(s.to_string())).collect()));
-            let got = ev.eval_fn_body(&f.block, &mut env).and_then(|r| match r {
-                Val::Ctor(ok, p, _) if ok == "Ok" => denotation(p.first().unwrap_or(&Val::Unit)),
-                o => denotation(&o),
-            });
+            // the alphabet may come alone, optional, or as the last part of a tuple (range constraints, alphabet)
+            fn alphabet_of(v: &Val) -> Result<Val, String> {
+                match v {
+                    Val::Ctor(n, p, _) if n == "Ok" || n == "Some" => alphabet_of(p.first().unwrap_or(&Val::Unit)),
+                    Val::Ctor(n, _, _) if n == "None" => Ok(alphabet(&[])),
+                    Val::Tuple(t) if !t.is_empty() => alphabet_of(t.last().unwrap()),
+                    o => Ok(o.clone()),
+                }
+            }
+            let got = ev.eval_fn_body(&f.block, &mut env).and_then(|r| alphabet_of(&r)).and_then(|a| denotation(&a));
             match got {
                 Ok(g) => {
                     if g != want {
